@@ -5,8 +5,12 @@ import os
 import sys
 
 HERE = os.path.dirname(os.path.dirname(os.path.abspath(__file__)))
-sys.path.insert(0, HERE)
-from mc.checks.meta import META, PENDING_REASON  # noqa: E402
+PENDING_REASON = ('check not built yet in this snapshot of /verif (the property is in scope of bounded '
+                  'exhaustive exploration, see DESIGN.md §3); not claimed until its check is registered')
+META = {}
+for fn in sorted(os.listdir(os.path.join(HERE, 'mc', 'checks'))):
+    if fn.endswith('.meta.json'):
+        META[fn.split('.')[0].upper()] = json.load(open(os.path.join(HERE, 'mc', 'checks', fn)))
 
 CMD = 'cd /verif && PYTHONPATH=/repo:/verif /venv/bin/python -B -m mc %s --tier %s'
 props = [json.loads(l)['id'] for l in open(os.path.join(HERE, 'properties.jsonl'))]
